@@ -55,6 +55,13 @@ func c15Payloads(rng *rand.Rand) []string {
 		"PRIVMSG #c :a\x00b",
 		"PRIVMSG #c :" + strings.Repeat("x", 2000),
 		"PRIVMSG #c :" + strings.Repeat("é", 900),
+		// the separator sits beyond the first 512 bytes of the posted text, behind parameters
+		// that the command does not relay: the relayed line is short
+		"PRIVMSG #c " + strings.Repeat("x", 520) + " :hi\r\n" + inj,
+		"PRIVMSG #c " + strings.Repeat("y ", 300) + ":hi\n" + inj,
+		"PRIVMSG #c " + strings.Repeat("z", 700) + " :hi\x00" + inj,
+		"NOTICE #c " + strings.Repeat("p", 498) + " :" + "\r" + inj,
+		"TOPIC #c " + strings.Repeat("t", 505) + " :new topic\r\n" + inj,
 		"\rPRIVMSG #c :leading cr",
 		"PRIVMSG #c\r :cr in the middle of the head",
 		"PRIVMSG\x00 #c :nul in the command",
@@ -471,6 +478,25 @@ func TestVerifC16(t *testing.T) {
 				rep.Case(fmt.Sprintf("oper-probe|%v|%v", configured, isOper))
 			}
 		}
+		// every fourth round the node is restarted from a snapshot taken while there is no ban
+		// at all, and the first GLINE comes after that
+		if r%4 == 1 && len(ircServer.VerifView().Config.Banned) == 0 && oper != nil {
+			*canaryCompactionStart = time.Now().Add(3 * time.Hour).UnixNano()
+			if err := n.raft.Snapshot().Error(); err != nil {
+				rep.Note("snapshot: " + err.Error())
+			}
+			*canaryCompactionStart = 0
+			n.stop()
+			var err error
+			n, err = startNode(n.dir, true)
+			if err != nil {
+				rep.Broken("restart: " + err.Error())
+				return
+			}
+			c = newClient(n.base)
+			rep.Obs("restart.without-bans-before-gline", 1)
+			// the operator session survives the restart (it is part of the state)
+		}
 		// GLINE is part of the replicated configuration
 		if oper != nil {
 			victim, _, _ := c.createSession()
@@ -480,8 +506,11 @@ func TestVerifC16(t *testing.T) {
 				cm++
 				c.post(victim, "USER u 0 * :r", cm)
 				cm++
+				// a node that dies on this entry dies on every replica: the driver attributes the death
+				rep.Progress(map[string]interface{}{"phase": "gline", "round": r, "seed": seed, "bans_before": len(ircServer.VerifView().Config.Banned)})
 				c.post(oper, fmt.Sprintf("GLINE v%d :spamming", cm-2), cm)
 				waitApplied(n)
+				rep.Progress(map[string]interface{}{"phase": "done"})
 				_, body, grev := c.getConfig(n.password)
 				got, _ := config.FromString(body)
 				stillOper := false
